@@ -1,11 +1,94 @@
 (* Props/C10.v -- property theorems only *)
-From Coq Require Import ZArith List.
-From Falcon Require Import Base.Res IL.Const IL.Expr IL.Func IL.Loc Exec.Sem SSA.SemSSA SSA.FuncEq SSA.SsaCheck.
+From Coq Require Import ZArith List NArith.
+From Falcon Require Import Base.Res IL.Const IL.Expr IL.Func IL.Loc Exec.Sem SSA.SemSSA SSA.FuncEq SSA.SsaCheck
+     SSA.SsaSound SSA.C10Check.
+Import ListNotations.
+Local Open Scope Z_scope.
 
-(* condition (1) of the validator really is equality with the erasure *)
-Theorem ssa_check_erase : forall f f', ssa_check f f' = true -> erase_func f' = f.
+(* [U] The validator is sound.  If it accepts (f, f') then
+   - f' differs from f only in `ssa` fields and phi nodes (erase_func f' = f);
+   - f' is valid SSA (SsaSound.ssa_valid): every versioned scalar has exactly one definition and every
+     versioned use is defined; along EVERY path from the entry every operand, declared intrinsic read,
+     edge guard and phi slot names the most recent definition of its name (or is the unversioned entry
+     value when there is none); every phi node has exactly one slot per predecessor, the `entry` slot
+     iff its block is the entry;
+   - f under Exec/Sem and f' under SSA/SemSSA (phi nodes select by incoming edge, in parallel) run in
+     lock step from EVERY initial state for EVERY number of steps (SsaSound.simulates): same
+     locations, same events (values assigned / loaded / stored, branch targets), same memory, same
+     faults, and at every step sigma'(x, Gamma x) = sigma x for the names Gamma tracks, which include
+     every scalar the instruction reads. *)
+Theorem ssa_check_sound : forall f f', ssa_check f f' = true ->
+  erase_func f' = f /\ ssa_valid f' /\ simulates f f'.
+Proof. exact SsaSound.ssa_check_sound. Qed.
+Print Assumptions ssa_check_sound.
+
+(* the typing search is not trusted: ANY typing that passes the local-consistency check will do *)
+Theorem check_typing_sound : forall f' T, check_typing f' T = true ->
+  ssa_valid f' /\ simulates (erase_func f') f'.
 Proof.
-  intros f f' H. unfold ssa_check in H. apply Bool.andb_true_iff in H. destruct H as [H _].
-  apply func_eqb_sound. exact H.
+  intros f' T H. split; [exact (SsaSound.check_typing_valid f' T H)|exact (SsaSound.check_typing_simulates f' T H)].
 Qed.
-Print Assumptions ssa_check_erase.
+Print Assumptions check_typing_sound.
+
+(* the one-step form of the simulation *)
+Theorem ssa_step_sim : forall f' T, check_typing f' T = true ->
+  forall l G st st', loc_ty f' T l = Some G -> st_rel G st st' ->
+  res_sim (loc_ty f' T) (sem_step (erase_func f') l st) (ssa_step f' l st').
+Proof. exact SsaSound.step_sim. Qed.
+Print Assumptions ssa_step_sim.
+
+(* ---- the hypotheses are satisfiable; the validator is not vacuous ---- *)
+Definition sx (v : option N) := mks 0%N 32 v.
+Definition sy (v : option N) := mks 1%N 32 v.
+Definition sc := mks 2%N 1 None.
+Definition k32 (v : Z) := EConst (mkc 32 v).
+Definition not_ (e : expr) := EBin Cmpeq e (EConst (mkc 1 0)).
+
+(* B0 -[c]-> B1{x=1}, B0 -[!c]-> B2{x=2}, B1,B2 -> B3{y=x} *)
+Definition ex_f : func :=
+  mkfunc 0 (mkcfg
+    [mkblock 0 0 [] [];
+     mkblock 1 1 [mkinstr 0 (OAssign (sx None) (k32 1)) None] [];
+     mkblock 2 1 [mkinstr 0 (OAssign (sx None) (k32 2)) None] [];
+     mkblock 3 1 [mkinstr 0 (OAssign (sy None) (EScalar (sx None))) None] []]
+    [mkedge 0 1 (Some (EScalar sc)); mkedge 0 2 (Some (not_ (EScalar sc))); mkedge 1 3 None; mkedge 2 3 None]
+    4 (Some 0) None) None.
+Definition ex_f' : func :=
+  mkfunc 0 (mkcfg
+    [mkblock 0 0 [] [];
+     mkblock 1 1 [mkinstr 0 (OAssign (sx (Some 1%N)) (k32 1)) None] [];
+     mkblock 2 1 [mkinstr 0 (OAssign (sx (Some 2%N)) (k32 2)) None] [];
+     mkblock 3 1 [mkinstr 0 (OAssign (sy (Some 1%N)) (EScalar (sx (Some 3%N)))) None]
+                 [mkphi [(1, sx (Some 1%N)); (2, sx (Some 2%N))] None (sx (Some 3%N))]]
+    [mkedge 0 1 (Some (EScalar sc)); mkedge 0 2 (Some (not_ (EScalar sc))); mkedge 1 3 None; mkedge 2 3 None]
+    4 (Some 0) None) None.
+Example ssa_check_accepts : ssa_check ex_f ex_f' = true.
+Proof. vm_compute. reflexivity. Qed.
+
+(* the defect found on the pristine tree: x assigned on both arms, read ONLY by the guards after the
+   join: no phi node, guards keep the unversioned x *)
+Definition gx (v : option N) := EBin Cmpeq (EScalar (sx v)) (k32 1).
+Definition kf_blocks (v1 v2 : option N) (phis : list phi) :=
+  [mkblock 0 0 [] [];
+   mkblock 1 1 [mkinstr 0 (OAssign (sx v1) (k32 1)) None] [];
+   mkblock 2 1 [mkinstr 0 (OAssign (sx v2) (k32 2)) None] [];
+   mkblock 3 0 [] phis; mkblock 4 0 [] []; mkblock 5 0 [] []].
+Definition kf_edges (vg : option N) :=
+  [mkedge 0 1 (Some (EScalar sc)); mkedge 0 2 (Some (not_ (EScalar sc))); mkedge 1 3 None; mkedge 2 3 None;
+   mkedge 3 4 (Some (gx vg)); mkedge 3 5 (Some (not_ (gx vg)))].
+Definition kf_f : func := mkfunc 0 (mkcfg (kf_blocks None None []) (kf_edges None) 6 (Some 0) None) None.
+Definition kf_f'_pristine : func :=
+  mkfunc 0 (mkcfg (kf_blocks (Some 1%N) (Some 2%N) []) (kf_edges None) 6 (Some 0) None) None.
+Definition kf_f'_fixed : func :=
+  mkfunc 0 (mkcfg (kf_blocks (Some 1%N) (Some 2%N)
+                     [mkphi [(1, sx (Some 1%N)); (2, sx (Some 2%N))] None (sx (Some 3%N))])
+                  (kf_edges (Some 3%N)) 6 (Some 0) None) None.
+Definition kf_state : sstate :=
+  mkst [((0%N, None), mkc 32 0); ((2%N, None), mkc 1 1)] (mkbmem false []).
+
+Example guard_only_output_rejected :
+  ssa_check kf_f kf_f'_pristine = false /\ run_agree kf_f kf_f'_pristine 8 kf_state = false.
+Proof. vm_compute. split; reflexivity. Qed.
+Example guard_only_fixed_output_accepted :
+  ssa_check kf_f kf_f'_fixed = true /\ run_agree kf_f kf_f'_fixed 8 kf_state = true.
+Proof. vm_compute. split; reflexivity. Qed.
